@@ -249,9 +249,17 @@ impl SqPackData {
 
         let base_offset = offset + (file_info.size as u64);
 
-        let total_blocks = model_file_info.num.total();
+        // summed in usize: the eleven 16-bit counts of a damaged header can exceed u16
+        let num = &model_file_info.num;
+        let total_blocks: usize = [num.stack_size, num.runtime_size]
+            .iter()
+            .chain(num.vertex_buffer_size.iter())
+            .chain(num.edge_geometry_vertex_buffer_size.iter())
+            .chain(num.index_buffer_size.iter())
+            .map(|count| *count as usize)
+            .sum();
 
-        let mut compressed_block_sizes: Vec<u16> = vec![0; total_blocks as usize];
+        let mut compressed_block_sizes: Vec<u16> = vec![0; total_blocks];
         let slice: &mut [u8] = to_u8_slice(&mut compressed_block_sizes);
 
         self.file.read_exact(slice).ok()?;
